@@ -113,6 +113,10 @@ func (g *aolGen) moniker() string {
 }
 
 func (g *aolGen) bytesVal(max int) []byte {
+	if g.clean && max > 70 && g.r.Chance(15) {
+		// a value longer than the key may be (values go up to 5000 bytes): accepted, stored, exported
+		return bytes.Repeat([]byte{'v'}, pick(g.r, []int{71, 200, 5000}))
+	}
 	if g.clean && g.r.Chance(90) {
 		return []byte(pick(g.r, []string{"", "k", "key-1", "\x00\xff"}))
 	}
